@@ -1,0 +1,81 @@
+//go:build verif
+
+// Contracts for mcache.go (property C17): the sliding message-cache window. Comment-only.
+
+package pubsub
+
+//@ spec fn mcRep(mc *MessageCache) bool = mc.msgs != nil && mc.peertx != nil && len(mc.history) >= 1 && 0 <= mc.gossip && mc.gossip <= len(mc.history) &&
+//@      (forall m string :: m in mc.peertx ==> mc.peertx[m] != nil && allocated(mc.peertx[m])) &&
+//@      (forall m1 string, m2 string :: m1 in mc.peertx && m2 in mc.peertx && m1 != m2 ==> mc.peertx[m1] != mc.peertx[m2])
+
+// Put: the message becomes retrievable under its id and is appended to the newest slot; older
+// slots and all other messages are untouched.
+//@ func (*MessageCache).Put
+//@   property C17
+//@   dynpure msgID
+//@   requires rep: mcRep(mc) && msg != nil
+//@   modifies map(mc.msgs), elems(mc.history), allelems(CacheEntry)
+//@   ensures stored: lastret(dyn:msgID) in mc.msgs && mc.msgs[lastret(dyn:msgID)] == msg && lastarg(dyn:msgID, 0) == msg
+//@   ensures others: forall m string :: m != lastret(dyn:msgID) ==> (m in mc.msgs) == old(m in mc.msgs) && mc.msgs[m] == old(mc.msgs[m])
+//@   ensures newest-slot: len(mc.history[0]) == old(len(mc.history[0])) + 1 && mc.history[0][old(len(mc.history[0]))].mid == lastret(dyn:msgID) &&
+//@        (forall j int :: 0 <= j && j < old(len(mc.history[0])) ==> mc.history[0][j] == old(mc.history[0][j]))
+//@   ensures older-slots: forall i int :: 1 <= i && i < len(mc.history) ==> mc.history[i] == old(mc.history[i])
+//@   ensures rep: mcRep(mc) && len(mc.history) == old(len(mc.history))
+
+//@ func (*MessageCache).Get
+//@   property C17
+//@   modifies nothing
+//@   ensures lookup: result1 == (mid in mc.msgs) && (result1 ==> result0 == mc.msgs[mid])
+
+// GetForPeer: the returned count is the number of requests for (mid, p) so far, this one included.
+//@ func (*MessageCache).GetForPeer
+//@   property C17
+//@   requires rep: mcRep(mc)
+//@   modifies map(mc.peertx), maps(mc.peertx)
+//@   ensures unknown: !old(mid in mc.msgs) ==> !result2 && result0 == nil && result1 == 0 &&
+//@        (forall m string, q string :: has(mc.peertx, m, q) == old(has(mc.peertx, m, q)) && mc.peertx[m][q] == old(mc.peertx[m][q]))
+//@   ensures counted: old(mid in mc.msgs) ==> result2 && result0 == mc.msgs[mid] && result1 == old(mc.peertx[mid][p]) + 1 && mc.peertx[mid][p] == result1
+//@   ensures others: forall m string, q string :: m != mid || q != p ==> mc.peertx[m][q] == old(mc.peertx[m][q])
+//@   ensures rep: mcRep(mc)
+
+// GetGossipIDs: only ids of the first `gossip` slots (the advertising window) with that topic.
+//@ func (*MessageCache).GetGossipIDs
+//@   property C17
+//@   requires rep: mcRep(mc)
+//@   modifies nothing
+//@   loop 1 invariant local-result: arr(mids) == nil || fresh(mids)
+//@   loop 2 invariant local-result: arr(mids) == nil || fresh(mids)
+//@   loop 1 invariant window: rangeindex#1 + 1 <= mc.gossip && (forall k int :: 0 <= k && k < len(mids) ==>
+//@        (exists i int, j int :: 0 <= i && i <= rangeindex#1 && i < mc.gossip && 0 <= j && j < len(mc.history[i]) && mc.history[i][j].mid == mids[k] && mc.history[i][j].topic == topic))
+//@   loop 2 invariant window: rangeindex#1 < mc.gossip && 0 <= rangeindex#1 && entries == mc.history[rangeindex#1] && (forall k int :: 0 <= k && k < len(mids) ==>
+//@        (exists i int, j int :: 0 <= i && i <= rangeindex#1 && i < mc.gossip && 0 <= j && j < len(mc.history[i]) && mc.history[i][j].mid == mids[k] && mc.history[i][j].topic == topic))
+//@   ensures only-gossip-window: forall k int :: 0 <= k && k < len(result) ==>
+//@        (exists i int, j int :: 0 <= i && i < mc.gossip && 0 <= j && j < len(mc.history[i]) && mc.history[i][j].mid == result[k] && mc.history[i][j].topic == topic)
+
+// Shift: every slot moves one position towards the end, the newest slot becomes empty, and the
+// entries of the oldest slot are forgotten: removed from msgs and from the per-peer
+// transmission counters; nothing else is removed.
+//@ func (*MessageCache).Shift
+//@   property C17
+//@   requires rep: mcRep(mc)
+//@   modifies map(mc.msgs), map(mc.peertx), elems(mc.history)
+//@   loop 1 invariant forgetting: (forall m string :: m in mc.msgs ==> old(m in mc.msgs) && mc.msgs[m] == old(mc.msgs[m])) &&
+//@        (forall m string :: m in mc.peertx ==> old(m in mc.peertx) && mc.peertx[m] == old(mc.peertx[m])) &&
+//@        (forall j int :: 0 <= j && j <= rangeindex ==> !(last[j].mid in mc.msgs) && !(last[j].mid in mc.peertx)) &&
+//@        (forall m string :: old(m in mc.msgs) && (forall j int :: 0 <= j && j < len(last) ==> last[j].mid != m) ==> m in mc.msgs) &&
+//@        last == old(mc.history[len(mc.history) - 1]) && rangeindex + 1 <= len(last) &&
+//@        (forall i int :: 0 <= i && i < len(mc.history) ==> mc.history[i] == old(mc.history[i])) && len(mc.history) == old(len(mc.history))
+//@   loop 2 invariant shifting: 0 - 1 <= i && i <= len(mc.history) - 2 && len(mc.history) == old(len(mc.history)) && mc.history == old(mc.history) &&
+//@        (forall k int :: i + 2 <= k && k < len(mc.history) ==> mc.history[k] == old(mc.history[k - 1])) &&
+//@        (forall k int :: 0 <= k && k <= i + 1 ==> mc.history[k] == old(mc.history[k])) &&
+//@        (forall m string :: m in mc.msgs ==> old(m in mc.msgs) && mc.msgs[m] == old(mc.msgs[m])) &&
+//@        (forall j int :: 0 <= j && j < len(last) ==> !(last[j].mid in mc.msgs) && !(last[j].mid in mc.peertx)) &&
+//@        (forall m string :: old(m in mc.msgs) && (forall j int :: 0 <= j && j < len(last) ==> last[j].mid != m) ==> m in mc.msgs) &&
+//@        last == old(mc.history[len(mc.history) - 1])
+//@   ensures slots-move: forall k int :: 1 <= k && k < len(mc.history) ==> mc.history[k] == old(mc.history[k - 1])
+//@   ensures newest-empty: len(mc.history[0]) == 0
+//@   ensures oldest-forgotten: forall j int :: 0 <= j && j < old(len(mc.history[len(mc.history) - 1])) ==>
+//@        !(old(mc.history[len(mc.history) - 1][j].mid) in mc.msgs) && !(old(mc.history[len(mc.history) - 1][j].mid) in mc.peertx)
+//@   ensures nothing-added: forall m string :: m in mc.msgs ==> old(m in mc.msgs) && mc.msgs[m] == old(mc.msgs[m])
+//@   ensures rest-kept: forall m string :: old(m in mc.msgs) && (forall j int :: 0 <= j && j < old(len(mc.history[len(mc.history) - 1])) ==> old(mc.history[len(mc.history) - 1][j].mid) != m) ==> m in mc.msgs
+//@   ensures same-length: len(mc.history) == old(len(mc.history))
